@@ -214,6 +214,6 @@ Lemma docx_legacy_relative t :
   is_abs t = false -> forallb seg_clean (split_slash t) = true -> docx_legacy t = resolve_part (s "word") t.
 Proof. intros Ha Hc. rewrite (resolve_part_relative (s "word") t eq_refl Ha Hc). reflexivity. Qed.
 
-Lemma odf_member_relative href :
-  is_abs href = false -> forallb seg_clean (split_slash href) = true -> odf_member href = resolve_part [] href.
+Lemma odf_legacy_relative href :
+  is_abs href = false -> forallb seg_clean (split_slash href) = true -> odf_legacy href = resolve_part [] href.
 Proof. intros Ha Hc. rewrite (resolve_part_root_relative _ Ha Hc). reflexivity. Qed.
